@@ -54,7 +54,12 @@ CLAUSES = {
         "of the current witness items) for the repaired code; the memoising variant fails: F05d_witness",
     "the source is the repaired variant (no memoisation, has_annex needs two elements)":
         "re-extracted on every run (Gen.sighashMemo, Gen.annexMinItems) and compared with Cfg.repaired by the harness",
-    "non-standard hash types, malformed arguments, script codes with OP_CODESEPARATOR or non-minimal pushes": "correspondence-only",
+    "all 256 hash-type bytes (outside the quantifier)": "proved on the 160 bytes where `& 3` and `& 0x1f` decode alike "
+        "(hashtype_decoding_agrees_iff, legacy_eq_spec_all_bytes, bip143_eq_spec_all_bytes); observation O05h on the other 96 "
+        "(O05h_nonstandard_hashtype_witness); taproot outside the seven: observation O05i (O05i_taproot_invalid_hashtype_witness)",
+    "OP_CODESEPARATOR in script codes (outside the quantifier)": "proved harmless when absent (no_codeseparator_no_stripping); "
+        "the library never strips it: observation O05j (O05j_codeseparator_witness), exercised and counted by the harness",
+    "hash types above 255, malformed arguments, non-canonical script codes": "correspondence-only",
 }
 TRUSTED = ["sha256 / hash256 are parameters of every theorem; the driver instantiates them with Buidl.Model.Hash.SHA256 "
            "(checked against hashlib by harness/hash_selftest.py)",
@@ -275,12 +280,12 @@ def script_of_raw(raw):
     return T.d_script(cmds)
 
 
-def spec_line(tx, query):
+def spec_line(tx, query, any_byte=False):
     """the specification request that defines the digest of a standard query; None when the property does not
     determine it (non-standard hash type, arguments that do not follow from the spent output)"""
     t = query.split(" ")
     alg, i, ht = t[0], int(t[1]), int(t[-1])
-    if ht not in STD:
+    if ht not in STD and not (any_byte and ht < 256):
         return None
     stx = T.stx_tokens(tx)
     if i >= len(tx["ins"]):
@@ -848,6 +853,34 @@ def run(ctx):
             k, a, w, what = bad if bad else (-1, len(impl), len(m), "answer count")
             rec.violation("history", case, impl, want if "spec" in what else m,
                           note=f"query #{k}: implementation {a} differs from the {what} {w}")
+
+    # ---- observations outside the property's quantifier: recorded in the evidence, never violations.
+    #  O05h  all 256 hash-type bytes for legacy / BIP143: the library masks with 3, Core with 0x1f; on the bytes where the
+    #        decodings agree (ht & 3 < 2 or ht & 0x1f < 4; theorems *_all_bytes) the digests must still be Core's
+    #  O05j  OP_CODESEPARATOR inside a legacy script code: Core strips it, the library does not
+    obs = []
+    for _ in range(ctx.n(150)):
+        kind = rng.choice(["p2pkh", "p2sh_ms", "p2wpkh", "p2wsh", "p2sh_p2wpkh", "p2sh_p2wsh"])
+        tx = gen_tx(rng, 2, rng.randrange(1, 4), [kind])
+        ht = rng.randrange(256)
+        obs.append(("O05h:agree" if (ht % 4 < 2 or ht % 32 < 4) else "O05h:mask-differs", tx, q_auto(rng.randrange(2), ht)))
+    for _ in range(ctx.n(40)):
+        tx = gen_tx(rng, 2, 2, ["p2sh_ms"])
+        pk = bytes([2]) + rbytes(rng, 32)
+        tx["ins"][0]["script_sig"]["cmds"][-1] = T.raw_script(T.d_script(rng.choice([[0xAB, 0x51], [0x51, 0xAB, pk, 0xAC], [pk, 0xAC, 0xAB]])))
+        obs.append(("O05j:codeseparator", tx, q_auto(0, rng.choice(STD))))
+    obs = [(lab, tx, q, f"q {T.t_tx(tx)} {q}", spec_line(tx, q, any_byte=True)) for lab, tx, q in obs]
+    obs = [o for o in obs if o[4]]
+    o_model = drv.batch([o[3] for o in obs])
+    o_spec = drv.batch([o[4] for o in obs])
+    for (lab, tx, q, line, sreq), model, want in zip(obs, o_model, o_spec):
+        impl = impl_line(line)
+        rec.compare("observation", {"line": line}, impl, model, determined=False, key=line[-200:], nontrivial=impl != REJECT)
+        same = impl == want
+        rec.count(f"observation:{lab}:{'equals-core' if same else 'differs-from-core'}")
+        if lab == "O05h:agree" and not same:
+            rec.disagreement("observation:O05h", {"line": line, "spec": sreq}, impl, want,
+                             note="hash-type byte on which the decodings agree, yet the digest is not Core's")
 
     # ---- findings F05a..F05f (listed as fixed: a reproduction is a regression)
     for fid, tx0, full, specs in fcases:
